@@ -101,6 +101,7 @@ type stackRun[T any] struct {
 	poppedDeep  bool
 	peekOut     int
 	peekNeg     int
+	bigPeeks    int // bigPeek ops (seqbig.go)
 	clears      int
 	popEmpty    int
 }
@@ -231,6 +232,8 @@ func (r *stackRun[T]) apply(op Op) string {
 		return r.doPop()
 	case "top", "len", "slice":
 		return r.check()
+	case "bigPeek":
+		return r.bigPeek(a, abs(op.B), abs(op.C))
 	case "peek":
 		n := a % (len(r.ref) + 3)
 		if a >= 190 { // offsets at the end of the int range
@@ -360,6 +363,7 @@ func runStackOf[T any](c SeqCase, o *vk.Obs, b *bound[T]) string {
 	o.Class("elem=" + kindName(c.Elem))
 	o.ClassIf(r.popThenPush > 0, "push_after_pop_on_nonempty")
 	o.ClassIf(r.peekOut > 0, "peek_out_of_range")
+	o.ClassIf(r.bigPeeks > 0, "big_container_Peek_probes")
 	o.ClassIf(r.peekNeg > 0, "peek_negative")
 	o.ClassIf(r.clears > 0, "has_clear")
 	o.ClassIf(r.popEmpty > 0, "pop_on_empty")
